@@ -26,6 +26,17 @@ def gen_cases(tier, rng):
     cases = []
     stats = {}
     cases.append('H:f=0 arg:v:b0:init=0 arg:n,number:i0: arg:name:s0: argv:2d766e35,2d2d6e616d653d78 exp:b0=1;i0=5;s0=s78')
+    # a flag ends the value list of a multi-value argument: the next free word is the positional argument
+    for (vk, first, more, pk, pv, pexp) in [('vi0', '1', ['2'], 's0', 'peter', 's' + A.hx('peter')),
+                                             ('vi0', '1,2', [], 'i0', '17', '17'),
+                                             ('vs0', 'a', ['b', 'c'], 's0', 'd', 's' + A.hx('d'))]:
+        for flagw in ('-f', '--flag'):
+            for keyw in (['-v', first], ['--values=' + first], ['--val', first]):
+                elems = first.split(',') + more
+                show = '[' + ','.join(elems if vk == 'vi0' else ['s' + A.hx(e) for e in elems]) + ']'
+                w = keyw + more + [flagw, pv]
+                cases.append('H:f=0 arg:v,values:%s:multi arg:f,flag:b0:init=0 arg:-:%s: %s exp:b0=1;%s=%s;%s=%s'
+                             % (vk, pk, A.argv_tok(w), pk, pexp, vk, show))
     guard = 0
     while len(cases) < n and guard < n * 30:
         guard += 1
